@@ -7,7 +7,7 @@ pub open spec fn idx_wf(ix: Idx, interval: int) -> bool {
     &&& ix.len() >= 1 && interval > 0
     &&& forall|j: int| 0 < j < ix.len() ==> #[trigger] ix[j].log_index == ix[j - 1].log_index + interval
     &&& forall|j: int| 0 < j < ix.len() ==> #[trigger] ix[j].file_index > ix[j - 1].file_index
-    &&& forall|j: int| 0 <= j < ix.len() ==> #[trigger] ix[j].file_index < 0x8000_0000
+    &&& forall|j: int| 0 <= j < ix.len() ==> #[trigger] ix[j].file_index < 0x1_0000_0000
 }
 pub proof fn lemma_idx_mono(ix: Idx, interval: int, i: int, j: int)
     requires idx_wf(ix, interval), 0 <= i < j < ix.len()
@@ -38,6 +38,310 @@ pub proof fn lemma_idx_bytes_bound(ix: Idx, p: int)
     decreases ix.len() - p
 {
     if p + 1 < ix.len() { lemma_idx_bytes_bound(ix, p + 1); }
+}
+
+// ------------------------------------------------------------------ the data-structure invariant of one open log file
+pub open spec fn zero_from(c: Seq<u8>, from: int) -> bool { forall|i: int| from <= i < c.len() ==> #[trigger] c[i] == 0u8 }
+
+/// concatenated varints of the file-offset deltas of entries 1..len-1 (what the index area holds)
+pub open spec fn idx_area(ix: Idx) -> Seq<u8>
+    decreases ix.len()
+{
+    if ix.len() <= 1 { Seq::empty() } else { idx_area(ix.drop_last()).add(enc((ix.last().file_index - ix[ix.len() - 2].file_index) as nat)) }
+}
+
+impl LogInnerManager {
+    /// record stream of the data handle (everything behind the 4 KiB header / index area)
+    pub open spec fn recs(&self) -> Seq<u8> { self.data_file.contents().skip(4096) }
+    /// number of bytes of record stream in use
+    pub open spec fn used(&self) -> int { self.data_cursor - 4096 }
+
+    /// scalar / data-file part of the invariant
+    pub open spec fn wf_data(&self) -> bool {
+        let d = self.data_file.contents();
+        &&& self.header.index_interval > 0 && self.header.data_area_index == 4096 && self.header.first_index == self.start_index
+        &&& d.len() == self.file_len && 4096 <= self.data_cursor <= self.file_len && self.file_len < 0x1_0000_0000
+        &&& self.start_index < 0x8000_0000_0000 && self.msg_count <= self.used()
+        // exactly msg_count complete records fill [4096, data_cursor)
+        &&& scan(self.recs(), self.msg_count as nat) == (self.used(), self.msg_count as nat)
+        &&& ok_prefixes(self.recs(), self.msg_count as nat)
+        // C02/C03: nothing behind the cursor can be read as a record (bytes of a removed suffix never come back)
+        &&& zero_from(d, self.data_cursor as int)
+        &&& (!self.need_seek_at_write ==> self.data_file.pos() == self.data_cursor)
+    }
+    /// every index entry points at the record boundary it names
+    pub open spec fn wf_points(&self) -> bool {
+        let ix = self.indexs@;
+        &&& idx_wf(ix, self.header.index_interval as int) && ix.len() < 0x1000
+        &&& ix[0].log_index == self.start_index && ix[0].file_index == 4096
+        &&& forall|j: int| 0 <= j < ix.len() ==> self.start_index <= #[trigger] ix[j].log_index <= self.start_index + self.msg_count
+        &&& forall|j: int| 0 <= j < ix.len() ==> #[trigger] ix[j].file_index - 4096 == scan(self.recs(), (ix[j].log_index - self.start_index) as nat).0
+        &&& self.current_index_count == self.msg_count - (ix.last().log_index - self.start_index)
+        &&& self.current_index_count < self.header.index_interval
+    }
+    /// index area of the index handle: the encoded entries, then zeros
+    pub open spec fn wf_area(&self) -> bool {
+        let a = self.index_file.contents();
+        &&& 32 <= self.index_cursor <= 4090 && a.len() >= 4096
+        &&& a.subrange(32, self.index_cursor as int) == idx_area(self.indexs@)
+        &&& forall|i: int| self.index_cursor <= i < 4096 ==> #[trigger] a[i] == 0u8
+    }
+    pub open spec fn wf(&self) -> bool { self.wf_data() && self.wf_points() && self.wf_area() }
+}
+
+/// the record stream after an append at the cursor: same bytes below, the frame, zeros behind
+pub open spec fn appended(d0: Seq<u8>, d1: Seq<u8>, c0: int, frame: Seq<u8>) -> bool {
+    &&& 4096 <= c0 && c0 + frame.len() <= d1.len()
+    &&& d1.take(c0) == d0.take(c0)
+    &&& d1.subrange(c0, c0 + frame.len()) == frame
+    &&& zero_from(d1, c0 + frame.len())
+}
+
+/// C02: appending one framed entry behind k complete records gives k+1 complete records and keeps the first k
+pub proof fn lemma_append_stream(d0: Seq<u8>, d1: Seq<u8>, c0: int, k: nat, body: Seq<u8>)
+    requires
+        4096 <= c0 <= d0.len(),
+        scan(d0.skip(4096), k) == (c0 - 4096, k), ok_prefixes(d0.skip(4096), k),
+        1 <= body.len() < 0x1000_0000,
+        appended(d0, d1, c0, enc(body.len() as nat).add(body)),
+    ensures
+        scan(d1.skip(4096), k + 1) == (c0 - 4096 + enc(body.len() as nat).len() + body.len(), k + 1),
+        ok_prefixes(d1.skip(4096), k + 1),
+        forall|j: nat| j <= k ==> #[trigger] scan(d1.skip(4096), j) == scan(d0.skip(4096), j),
+{
+    let s0 = d0.skip(4096);
+    let s1 = d1.skip(4096);
+    let b = c0 - 4096;
+    let frame = enc(body.len() as nat).add(body);
+    let f = frame.len() as int;
+    assert(s1.take(b) =~= s0.take(b)) by {
+        assert forall|i: int| 0 <= i < b implies s1.take(b)[i] == s0.take(b)[i] by {
+            assert(d1.take(c0)[i + 4096] == d0.take(c0)[i + 4096]);
+        }
+    }
+    lemma_scan_prefix(s0, s1, k);
+    lemma_ok_prefixes_prefix(s0, s1, k);
+    let t = s1.skip(b);
+    assert(t.take(f) =~= frame) by {
+        assert forall|i: int| 0 <= i < f implies t.take(f)[i] == frame[i] by {
+            assert(d1.subrange(c0, c0 + f)[i] == d1[c0 + i]);
+        }
+    }
+    lemma_frame_first_rec(t, body);
+    lemma_scan_append(s1, k, f);
+    // ok_prefixes of k+1: the first k by prefix, the (k+1)th by the frame
+    lemma_ok_prefixes_snoc(s1, k);
+    assert forall|j: nat| j <= k implies #[trigger] scan(s1, j) == scan(s0, j) by {
+        lemma_scan_mono(s0, j, k);
+        lemma_scan_bounds(s0, k);
+        lemma_scan_bounds(s0, j);
+        assert(scan(s0, j).0 <= b && b <= s0.len() && b <= s1.len());
+        assert(s1.take(scan(s0, j).0) =~= s0.take(scan(s0, j).0)) by {
+            assert forall|i: int| 0 <= i < scan(s0, j).0 implies s1[i] == s0[i] by { assert(s1.take(b)[i] == s0.take(b)[i]); }
+        }
+        lemma_scan_prefix(s0, s1, j);
+    }
+}
+
+/// every record takes at least one byte
+pub proof fn lemma_scan_count(s: Seq<u8>, k: nat)
+    ensures scan(s, k).1 <= scan(s, k).0
+    decreases s.len()
+{
+    if k > 0 {
+        match first_rec(s) {
+            Some(n) => { lemma_first_rec_bounds(s); lemma_scan_count(s.skip(n), (k - 1) as nat); },
+            None => {}
+        }
+    }
+}
+
+pub proof fn lemma_idx_area_len(ix: Idx)
+    ensures idx_area(ix).len() >= ix.len() - 1
+    decreases ix.len()
+{
+    if ix.len() > 1 {
+        lemma_idx_area_len(ix.drop_last());
+        lemma_enc_len((ix.last().file_index - ix[ix.len() - 2].file_index) as nat);
+    }
+}
+
+/// what `write` does to the data handle and the scalars
+pub open spec fn write_data_step(o: LogInnerManager, n: LogInnerManager, body: Seq<u8>) -> bool {
+    &&& o.data_cursor < 2_000_000_000 && o.index_cursor + 10 < 4096
+    &&& 1 <= body.len() < 0x1000_0000
+    &&& n.header == o.header && n.start_index == o.start_index && n.msg_count == o.msg_count + 1
+    &&& n.data_cursor == o.data_cursor + enc(body.len() as nat).len() + body.len()
+    &&& n.file_len == n.data_file.contents().len() && n.data_cursor <= n.file_len && n.file_len < 0x1_0000_0000
+    &&& appended(o.data_file.contents(), n.data_file.contents(), o.data_cursor as int, enc(body.len() as nat).add(body))
+    &&& !n.need_seek_at_write && n.data_file.pos() == n.data_cursor
+}
+/// index untouched (interval not complete)
+pub open spec fn write_idx_same(o: LogInnerManager, n: LogInnerManager) -> bool {
+    &&& o.current_index_count + 1 < o.header.index_interval
+    &&& n.indexs == o.indexs && n.current_index_count == o.current_index_count + 1
+    &&& n.index_cursor == o.index_cursor && n.index_file.contents() == o.index_file.contents()
+}
+/// one index entry pushed (interval complete)
+pub open spec fn write_idx_push(o: LogInnerManager, n: LogInnerManager) -> bool {
+    let delta = (n.data_cursor - o.indexs@.last().file_index) as nat;
+    &&& o.current_index_count + 1 == o.header.index_interval
+    &&& n.indexs@ == o.indexs@.push(InnerIdxDto { log_index: (n.msg_count + o.header.first_index) as u64, file_index: n.data_cursor })
+    &&& n.current_index_count == 0
+    &&& n.index_cursor == o.index_cursor + enc(delta).len()
+    &&& n.index_file.contents().len() == o.index_file.contents().len()
+    &&& n.index_file.contents().subrange(o.index_cursor as int, n.index_cursor as int) == enc(delta)
+    &&& forall|i: int| 0 <= i < o.index_file.contents().len() && !(o.index_cursor <= i < n.index_cursor) ==> #[trigger] n.index_file.contents()[i] == o.index_file.contents()[i]
+}
+
+pub proof fn lemma_write_data(o: LogInnerManager, n: LogInnerManager, body: Seq<u8>)
+    requires o.wf_data(), write_data_step(o, n, body)
+    ensures n.wf_data(),
+        forall|j: nat| j <= o.msg_count ==> #[trigger] scan(n.recs(), j) == scan(o.recs(), j),
+        scan(n.recs(), n.msg_count as nat) == (n.used(), n.msg_count as nat),
+{
+    lemma_append_stream(o.data_file.contents(), n.data_file.contents(), o.data_cursor as int, o.msg_count as nat, body);
+    lemma_enc_len_table(body.len() as nat);
+    lemma_scan_count(n.recs(), n.msg_count as nat);
+}
+
+pub proof fn lemma_write_points_same(o: LogInnerManager, n: LogInnerManager)
+    requires o.wf_points(), n.header == o.header, n.start_index == o.start_index, n.msg_count == o.msg_count + 1, write_idx_same(o, n),
+        forall|j: nat| j <= o.msg_count ==> #[trigger] scan(n.recs(), j) == scan(o.recs(), j),
+    ensures n.wf_points()
+{
+    let ix = o.indexs@;
+    assert forall|j: int| 0 <= j < ix.len() implies #[trigger] ix[j].file_index - 4096 == scan(n.recs(), (ix[j].log_index - n.start_index) as nat).0 by {
+        let jj = (ix[j].log_index - o.start_index) as nat;
+        assert(jj <= o.msg_count);
+        assert(scan(n.recs(), jj) == scan(o.recs(), jj));
+    }
+}
+
+pub proof fn lemma_write_points_push(o: LogInnerManager, n: LogInnerManager)
+    requires o.wf_points(), o.wf_area(), o.index_cursor + 10 < 4096,
+        n.header == o.header, n.start_index == o.start_index, n.msg_count == o.msg_count + 1, write_idx_push(o, n),
+        o.header.first_index == o.start_index, o.start_index < 0x8000_0000_0000, n.msg_count < 0x1_0000_0000,
+        n.data_cursor < 0x1_0000_0000, n.data_cursor > o.indexs@.last().file_index,
+        forall|j: nat| j <= o.msg_count ==> #[trigger] scan(n.recs(), j) == scan(o.recs(), j),
+        scan(n.recs(), n.msg_count as nat).0 == n.data_cursor - 4096,
+    ensures n.wf_points()
+{
+    let ix = o.indexs@;
+    let nx = n.indexs@;
+    let interval = o.header.index_interval as int;
+    let e = nx[nx.len() - 1];
+    assert(nx.len() == ix.len() + 1);
+    assert forall|j: int| 0 <= j < ix.len() implies nx[j] == ix[j] by {}
+    assert(e.log_index == ix.last().log_index + interval);
+    lemma_idx_area_len(ix);
+    assert forall|j: int| 0 < j < nx.len() implies #[trigger] nx[j].log_index == nx[j - 1].log_index + interval by {
+        if j < ix.len() { assert(nx[j] == ix[j]); assert(nx[j - 1] == ix[j - 1]); }
+    }
+    assert forall|j: int| 0 < j < nx.len() implies #[trigger] nx[j].file_index > nx[j - 1].file_index by {
+        if j < ix.len() { assert(nx[j] == ix[j]); assert(nx[j - 1] == ix[j - 1]); }
+    }
+    assert forall|j: int| 0 <= j < nx.len() implies #[trigger] nx[j].file_index < 0x1_0000_0000 by {
+        if j < ix.len() { assert(nx[j] == ix[j]); }
+    }
+    assert forall|j: int| 0 <= j < nx.len() implies #[trigger] nx[j].file_index - 4096 == scan(n.recs(), (nx[j].log_index - n.start_index) as nat).0 by {
+        if j < ix.len() {
+            assert(nx[j] == ix[j]);
+            let jj = (ix[j].log_index - o.start_index) as nat;
+            assert(jj <= o.msg_count);
+            assert(scan(n.recs(), jj) == scan(o.recs(), jj));
+        }
+    }
+    assert forall|j: int| 0 <= j < nx.len() implies n.start_index <= #[trigger] nx[j].log_index <= n.start_index + n.msg_count by {
+        if j < ix.len() { assert(nx[j] == ix[j]); }
+    }
+}
+
+pub proof fn lemma_write_area_push(o: LogInnerManager, n: LogInnerManager)
+    requires o.wf_area(), o.wf_points(), o.index_cursor + 10 < 4096, write_idx_push(o, n), n.data_cursor < 0x1_0000_0000, n.data_cursor > o.indexs@.last().file_index,
+    ensures n.wf_area()
+{
+    let ix = o.indexs@;
+    let nx = n.indexs@;
+    let delta = (n.data_cursor - ix.last().file_index) as nat;
+    lemma_enc_len_table(delta);
+    assert(nx.drop_last() =~= ix);
+    assert(idx_area(nx) == idx_area(ix).add(enc(delta)));
+    let a0 = o.index_file.contents();
+    let a1 = n.index_file.contents();
+    assert(a1.subrange(32, n.index_cursor as int) =~= idx_area(ix).add(enc(delta))) by {
+        assert forall|i: int| 0 <= i < n.index_cursor - 32 implies a1.subrange(32, n.index_cursor as int)[i] == idx_area(ix).add(enc(delta))[i] by {
+            if i < o.index_cursor - 32 { assert(a0.subrange(32, o.index_cursor as int)[i] == a0[i + 32]); }
+            else { assert(a1.subrange(o.index_cursor as int, n.index_cursor as int)[i + 32 - o.index_cursor] == a1[i + 32]); }
+        }
+    }
+}
+
+/// C02: one acknowledged append keeps the whole data-structure invariant
+pub proof fn lemma_write_wf(o: LogInnerManager, n: LogInnerManager, body: Seq<u8>)
+    requires o.wf(), write_data_step(o, n, body), write_idx_same(o, n) || write_idx_push(o, n),
+    ensures n.wf()
+{
+    lemma_write_data(o, n, body);
+    lemma_scan_count(n.recs(), n.msg_count as nat);
+    if write_idx_same(o, n) {
+        lemma_write_points_same(o, n);
+    } else {
+        lemma_scan_mono(o.recs(), (o.indexs@.last().log_index - o.start_index) as nat, o.msg_count as nat);
+        lemma_enc_len(body.len() as nat);
+        lemma_write_points_push(o, n);
+        lemma_write_area_push(o, n);
+    }
+}
+
+/// ok_prefixes grows by one when the next record has a store-sized prefix
+pub proof fn lemma_ok_prefixes_snoc(s: Seq<u8>, k: nat)
+    requires scan(s, k).1 == k, ok_prefixes(s, k), 0 <= scan(s, k).0 <= s.len(),
+        ({ let t = s.skip(scan(s, k).0); vlen(t) is Some ==> (vlen(t).unwrap() <= 10 && vval(t) < 0x1_0000_0000) }),
+    ensures ok_prefixes(s, k + 1)
+    decreases k
+{
+    lemma_scan_bounds(s, k);
+    reveal_with_fuel(ok_prefixes, 2);
+    if k == 0 { assert(s.skip(0) =~= s); } else {
+        match first_rec(s) {
+            Some(m) => {
+                lemma_first_rec_bounds(s);
+                let s2 = s.skip(m);
+                let k1 = (k - 1) as nat;
+                lemma_scan_bounds(s2, k1);
+                assert(s2.skip(scan(s2, k1).0) =~= s.skip(scan(s, k).0));
+                assert(ok_prefixes(s2, k1));
+                lemma_ok_prefixes_snoc(s2, k1);
+                assert(ok_prefixes(s2, (k1 + 1) as nat));
+            },
+            None => { assert(scan(s, k) == (0int, 0nat)); }
+        }
+    }
+}
+
+/// a stream that starts with a framed message (length >= 1, < 2^32) starts with exactly that record
+pub proof fn lemma_frame_first_rec(s: Seq<u8>, body: Seq<u8>)
+    requires 1 <= body.len() < 0x1_0000_0000,
+        enc(body.len() as nat).len() + body.len() <= s.len(),
+        s.take((enc(body.len() as nat).len() + body.len()) as int) == enc(body.len() as nat).add(body),
+    ensures first_rec(s) == Some((enc(body.len() as nat).len() + body.len()) as int),
+        vlen(s) == Some(enc(body.len() as nat).len() as int), vval(s) == body.len(),
+        vlen(s).unwrap() <= 10,
+{
+    let n = body.len() as nat;
+    let f = enc(n).len() + n;
+    let rest = body.add(s.skip(f as int));
+    lemma_dec_enc(n, rest);
+    lemma_enc_len_table(n);
+    assert(enc(n).add(rest) =~= s) by {
+        assert(s.take(f as int).add(s.skip(f as int)) =~= s);
+        assert(enc(n).add(body).add(s.skip(f as int)) =~= enc(n).add(rest));
+    }
+    assert(s[0] == enc(n)[0]);
+    assert(enc(n)[0] != 0) by {
+        if n < 128 { } else { let b = ((n % 128) + 128) as u8; assert(enc(n)[0] == b); }
+    }
 }
 
 // ------------------------------------------------------------------ index area decode (read_indexs)
